@@ -68,6 +68,17 @@ func init() {
 					}
 					roundTrip(c, "gob", vmodel.Exact, pairs, x, label, nil)
 				}},
+				{Name: "all-names", N: 61 * 4, Exhaustive: true, Run: func(c *Ctx, idx int) {
+					x, label := allNamesValue(exactGen(c, true, idx), idx)
+					roundTrip(c, "gob", vmodel.Exact, gobPairs, x, label, nil)
+				}},
+				{Name: "deep", N: tierN(tier, 120, 2000), Run: func(c *Ctx, idx int) {
+					g := exactGen(c, false, idx)
+					g.PSet = 0.12
+					k := vmodel.Kinds[idx%len(vmodel.Kinds)]
+					x := g.Struct(k, 5+idx%3, true)
+					roundTrip(c, "gob", vmodel.Exact, gobPairs, x, fmt.Sprintf("deep %s depth<=%d", k.Name, 5+idx%3), nil)
+				}},
 				{Name: "random", N: tierN(tier, 10000, 400000), Run: func(c *Ctx, idx int) {
 					g := exactGen(c, false, idx)
 					x, label := randomValue(g, tierN(tier, 2, 4))
